@@ -322,6 +322,68 @@ pub fn run(ctx: &Ctx) {
   });
   ctx.subspace(&format!("(1d) every {} term target of years {}..{} solved in TT against the independent apparent solar longitude (tolerance 18 min + 2.5 min x millennia^2; only gross secular errors are visible here)", if step == 1 { "".to_string() } else { format!("{}th", step) }, ga / 24, gb / 24), done, nwide as u64);
   ctx.note(format!("worker {}: (1d) worst Sun deviation per 500-year distance band from J2000 (min): {:?}", part().0, worst_wide.lock().unwrap().iter().map(|x| (x * 10.0).round() / 10.0).collect::<Vec<_>>()));
+  // (1e) every term of years 1..9999 as reported by SolarTerm::get_julian_day: the reported instant must be the solution for
+  // the target longitude of *that* term (270 + 15 k degrees of that year, not a neighbour's), i.e. equal the library's own
+  // TT solution for the exact target converted with the library's own TT-UT; and the independent theory must put the Sun at
+  // the target there (same growing tolerance as 1d)
+  let worst_e = std::sync::Mutex::new((0.0f64, 0.0f64));
+  let band_e = std::sync::Mutex::new(vec![0.0f64; 20]);
+  let done = par_chunks(ctx, 24, 24 * 10000, 512, |a, b, l| {
+    for g in a..b {
+      let t = tm.t[g];
+      l.transitions += 1;
+      if t.jd.is_nan() {
+        continue;
+      }
+      let kq = g as i64 - 24 * 2000;
+      // the library counts the longitude continuously from 0 at the March equinox of 1999 (4.895 rad at J2000)
+      let w = (kq as f64 - 6.0) * PI / 12.0 + 2.0 * PI;
+      let r = guard(|| {
+        let tt = ShouXingUtil::sa_lon_t(w) * 36525.0;
+        (tt, tt - ShouXingUtil::dtt(tt) + 8.0 / 24.0 + J2000)
+      });
+      match r {
+        Ok((tt, want)) => {
+          let ds = (t.jd - want).abs() * 86400.0;
+          let target = (270.0 + 15.0 * (g % 24) as f64).rem_euclid(360.0);
+          let mut dl = (target - sun_apparent_lon(tt + J2000)).rem_euclid(360.0);
+          if dl > 180.0 {
+            dl -= 360.0;
+          }
+          let dmin = (dl / (360.0 / 365.2422) * 1440.0).abs();
+          let ky = (tt / 36525.0).abs() / 10.0;
+          // beyond 4 millennia from J2000 the low-accuracy theory degrades faster (measured 64 / 103 / 185 / 329 / 458 min in
+          // the 500-year bands from 6000 / 7000 / 8000 / 9000 / 9500): only gross errors are visible there
+          let tol = 18.0 + 2.5 * ky * ky + if ky > 4.0 { 16.0 * (ky - 4.0).powi(3) } else { 0.0 };
+          {
+            let mut wv = worst_e.lock().unwrap();
+            if ds > wv.0 {
+              wv.0 = ds;
+            }
+            if dmin / tol > wv.1 {
+              wv.1 = dmin / tol;
+            }
+            let mut bv = band_e.lock().unwrap();
+            let slot = (g / 24 / 500).min(19);
+            if dmin > bv[slot] {
+              bv[slot] = dmin;
+            }
+          }
+          if !(ds <= 1.0) {
+            ctx.violation("term_instant_target", gkey(g), format!("SolarTerm::get_julian_day of term {} = JD {} (UTC+8); the solution for its own target longitude {} deg is JD {}: {:.1} s apart (a neighbouring term's instant is ~15 days away)", gkey(g), t.jd, target, want, ds), vec!["term".into(), g.to_string()]);
+          }
+          if !(dmin <= tol) {
+            ctx.violation("term_vs_theory_tt", gkey(g), format!("term {}: the library's TT solution JDE {} for {} deg: the independent theory puts the Sun {:.1} min away (tolerance {:.0} min at this distance from J2000)", gkey(g), tt + J2000, target, dmin, tol), vec!["term".into(), g.to_string()]);
+          }
+        }
+        Err(m) => ctx.violation("term_instant_target", gkey(g), format!("panics: {}", m), vec!["term".into(), g.to_string()]),
+      }
+    }
+  });
+  ctx.subspace("(1e) all 239,976 terms of years 1..9999: SolarTerm::get_julian_day = the library's TT solution for the term's own target longitude converted with its own TT-UT (1 s), and the independent solar theory agrees at that TT instant (18 min + 2.5 min x millennia^2, + 16 min x (millennia - 4)^3 beyond AD 6000)", done, 239_976);
+  let we = *worst_e.lock().unwrap();
+  ctx.note(format!("worker {}: (1e) worst independent Sun deviation per 500-year band from year 0 (min): {:?}", part().0, band_e.lock().unwrap().iter().map(|x| x.round()).collect::<Vec<_>>()));
+  ctx.note(format!("worker {}: (1e) worst |reported - own-target solution| {:.3} s; worst independent deviation / tolerance {:.2}", part().0, we.0, we.1));
   // (2a) terms 1961..9999: calendar day == day of the precise instant
   // the day-agreement spaces cost a few seconds, so both tiers enumerate them completely
   let years: Vec<isize> = (1961..=9999).collect();
